@@ -56,6 +56,9 @@ def custom_definition(name):
     if name == "custom1l":      # log / acos entries
         M = sympy.Matrix([[sympy.log(a), 0], [0, sympy.acos(a)]])
         return C.CustomGateDefinition(name, M, (a,))
+    if name == "customz":       # diag(1, zeta): unitary exactly for the unit-modulus COMPLEX values of its parameter
+        z = sympy.Symbol("zeta")
+        return C.CustomGateDefinition(name, sympy.Matrix([[1, 0], [0, z]]), (z,))
     if name == "custom1q":      # one qubit, one parameter named gamma (shadows sympy.gamma)
         g = sympy.Symbol("gamma")
         M = sympy.Matrix([[1, 0], [0, sympy.exp(sympy.I * g)]])
